@@ -6,7 +6,7 @@ import ast
 import sympy as sp
 
 from .. import sym
-from ..core import AnalysisError, names_in, norm, walk_no_nested
+from ..core import AnalysisError, kwarg, names_in, norm, walk_no_nested
 
 EXPLANATION = (
     "Static analysis of AegeanTools/angle_tools.py. R1-R3: gcd, bear and "
@@ -78,6 +78,10 @@ MUTANTS = [
      "AegeanTools/angle_tools.py",
      "    ra_out = ra + np.degrees(np.arctan2(y, x))",
      "    ra_out = np.asarray(ra, dtype=float)\n    ra_out += np.degrees(np.arctan2(y, x))", "C17-R7"),
+    ("rounded to two decimals, then scaled (seed C17d)",
+     "AegeanTools/angle_tools.py",
+     "    total = int(round(abs(x) * 3600 * 100))\n",
+     "    total = int(round(abs(x) * 3600, 2) * 100)\n", "C17-R4"),
 ]
 TWINS = [
     ("haversine with explicit conversion", "AegeanTools/angle_tools.py",
@@ -274,11 +278,38 @@ def sexagesimal(ctx, prog, mod, R4="C17-R4", R5="C17-R5"):
                 n4 += 1
                 arg = c.args[k]
                 sl_names, stmts = _slice(fi.node, arg)
-                has_round = any(
-                    isinstance(x, ast.Call) and norm(x.func) in (
-                        "round", "np.round", "numpy.round", "np.rint",
-                        "np.around")
-                    for s in stmts + [arg] for x in ast.walk(s))
+                rounds = [x for s in stmts + [arg] for x in ast.walk(s)
+                          if isinstance(x, ast.Call) and norm(x.func) in (
+                              "round", "np.round", "numpy.round", "np.rint",
+                              "np.around")]
+                has_round = bool(rounds)
+                # the quantisation must be a rounding TO AN INTEGER number of
+                # printed units, converted as it stands: round(v, 2) * 100
+                # is a float just below the integer for many v and int()
+                # truncates it by a whole unit
+                pmr = {}
+                for s_ in stmts + [arg]:
+                    for x_ in ast.walk(s_):
+                        for ch_ in ast.iter_child_nodes(x_):
+                            pmr[ch_] = x_
+                for r_ in rounds:
+                    nd = r_.args[1] if len(r_.args) > 1 else kwarg(
+                        r_, "ndigits") or kwarg(r_, "decimals")
+                    frac = nd is not None and not (
+                        isinstance(nd, ast.Constant) and nd.value in (0,
+                                                                      None))
+                    up = pmr.get(r_)
+                    scaled = isinstance(up, ast.BinOp) and isinstance(
+                        up.op, (ast.Mult, ast.Div))
+                    ctx.check(R4, fi, "integer quantisation " + norm(r_, 60),
+                              not frac and not scaled,
+                              "%s rounds to a decimal fraction / is scaled "
+                              "after rounding: the product is a binary "
+                              "float that may sit just below the intended "
+                              "integer, and the following int() or field "
+                              "split then loses a whole unit of the last "
+                              "printed digit" % norm(up if scaled else r_,
+                                                     70), node=r_)
                 carry = any(
                     isinstance(x, ast.Compare) and
                     names_in(x) & sl_names and any(
